@@ -3,7 +3,10 @@
 set -e
 cd "$(dirname "$0")/.."
 b="$1"
-git merge --no-edit "$b" >/dev/null 2>&1 || true
+# evidence files rewritten by local runs must not block the merge
+if ! git diff --quiet || ! git diff --cached --quiet; then git add -A; git commit -q -m "evidence of local runs before merging $b"; fi
+git merge --no-edit "$b" >/tmp/merge_branch.log 2>&1 || true
+if ! git merge-base --is-ancestor "$b" HEAD 2>/dev/null && ! git rev-parse -q --verify MERGE_HEAD >/dev/null; then echo "MERGE DID NOT HAPPEN:"; cat /tmp/merge_branch.log; exit 1; fi
 git checkout --ours MANIFEST.json lean/FileD/Props/All.lean harness/go.mod 2>/dev/null || true
 git checkout HEAD -- harness/go.mod 2>/dev/null || true
 if git diff --name-only --diff-filter=U | grep -v 'MANIFEST.json\|All.lean\|go.mod' | grep .; then echo "UNRESOLVED CONFLICTS above - fix by hand"; exit 1; fi
